@@ -2833,10 +2833,23 @@ class VM:
 
     def _delete_property(self, obj: JSValue, key: JSValue) -> bool:
         """Delete property from object."""
+        if obj is UNDEFINED or obj is NULL:
+            raise JSTypeError(f"Cannot convert {to_string(obj)} to object")
         if isinstance(obj, JSObject):
             key_str = self._to_string(key) if not isinstance(key, str) else key
             return obj.delete(key_str)
-        return False
+        if isinstance(obj, str):
+            # The characters and the length of a string cannot be deleted
+            key_str = self._to_string(key) if not isinstance(key, str) else key
+            if key_str == "length" or (
+                key_str.isdigit()
+                and key_str.isascii()
+                and str(int(key_str)) == key_str
+                and int(key_str) < len(obj)
+            ):
+                raise JSTypeError(f"Cannot delete property '{key_str}' of a string")
+        # Any other primitive has no own properties: there is nothing to delete
+        return True
 
     def _invoke_getter(self, getter: Any, this_val: JSValue) -> JSValue:
         """Invoke a getter function and return its result."""
